@@ -5,6 +5,7 @@ import Cppcms.C12.Header
 import Cppcms.C12.Limits
 import Cppcms.C12.EndToEnd
 import Cppcms.C12.Events
+import Cppcms.C12.Readback
 /-!
 # C12 property theorems
 
@@ -491,7 +492,7 @@ theorem requestIO_cut_independent (i j : ReqIn) (hflt : i.flt = j.flt) (hct : i.
           exact request_chunking_independent _ _ _ _ _ (by rw [hfi, hfj']) (hlen false)
         | multipart cfg =>
           simp only
-          exact request_chunking_independent _ _ _ _ _ (by rw [hfi, hfj']) (hlen true)
+          rw [chunking_independent cfg i.cl _ (feedAll i.cl (max j.bufSize 1) true j.chunks) (by rw [hfi, hfj']) (hlen true)]
   · unfold requestIO
     rw [← hflt, ← hct, ← hcl, ← hlim, ← hq]
     by_cases h1 : (i.flt == 1) = true
@@ -544,5 +545,27 @@ theorem filter_events_chunking_independent (cfg : Cfg) (cl : Nat) (cs₁ cs₂ :
     noProg (evRun cfg cl {} cs₁) = noProg (evRun cfg cl {} cs₂) := by
   have h0 : ({} : RS).read = 0 := rfl
   rw [evRun_flatten cfg cl cs₁ {} (by rw [h0]; omega), evRun_flatten cfg cl cs₂ {} (by rw [h0, ← hjoin]; omega), hjoin]
+
+/-! ## reading the parts back -/
+
+/-- **readback_exact**: `file.data().seekg(off)` followed by reading to EOF returns exactly
+the bytes written from `off` on — for a part kept in memory and for a part spilled to a
+temporary file (read back in `buffer_size` blocks), whatever the bytes (0xFF at a block
+boundary included). Depends on `underflow()` using `traits::to_int_type` (regenerated). -/
+theorem readback_exact (memLimit : Nat) (data : Bytes) (off : Nat) :
+    readBackFrom memLimit data off = data.drop off :=
+  readBackFrom_eq memLimit data off
+
+/-- **delivery_reads_back_exactly**: what the end of `on_content_progress` actually does — copy
+every form field through `read_file` (after a multipart filter may have read the part to its
+end), leave the files to be read by the application — hands over exactly `deliver parts`,
+i.e. every content byte for byte. Depends on `read_file` rewinding (regenerated). -/
+theorem delivery_reads_back_exactly (memLimit : Nat) (reader : Bool) (parts : List Part) :
+    deliverR memLimit reader parts = deliver parts :=
+  deliverR_eq_deliver memLimit reader parts
+
+example : readBackFrom 3 ([255, 1, 2, 3] ++ List.replicate 1020 7 ++ [255, 255]) 0
+    = [255, 1, 2, 3] ++ List.replicate 1020 7 ++ [255, 255] := by
+  rw [readback_exact]; rfl
 
 end Cppcms.C12.Props
